@@ -408,7 +408,16 @@ where
     fn create<T: ObjectWrite>(&mut self, obj: T) -> Result<RcRef<T>> {
         let id = self.refs.len() as u64;
         self.refs.push(XRef::Promised);
-        let primitive = obj.to_primitive(self)?;
+        let primitive = match obj.to_primitive(self) {
+            Ok(p) => p,
+            Err(e) => {
+                // nothing will be written for this number and the caller gets no reference to
+                // replace it: it must not stay promised (that makes every later save fail).
+                // Objects created from inside to_primitive may follow it, so it becomes a free entry.
+                self.refs.set(id, XRef::Free { next_obj_nr: 0, gen_nr: 0 });
+                return Err(e);
+            }
+        };
         self.changes.insert(id, (primitive, 0));
         let rc = Shared::new(obj);
         let r = PlainRef { id, gen: 0 };
